@@ -70,7 +70,22 @@ func exerciseC20(r *Run, s subject, maxSeq int) int {
 	}
 	n := 0
 	t := s.v.Type()
+	// results before anything was encoded: encoding is a read-only operation too
+	pre := map[int][]interface{}{}
+	for _, m := range ms {
+		if o, p := callRO(s.v, m); p == nil {
+			pre[m] = o
+		}
+	}
 	enc0 := append([]byte{}, s.enc()...)
+	for _, m := range ms {
+		if want, ok := pre[m]; ok {
+			if o, p := callRO(s.v, m); p == nil && !sameResults(want, o) {
+				r.Fail("c20-result-changed-by-encoding", s.what, fmt.Sprintf("%s returned %v before the value was encoded and %v after", t.Method(m).Name, want, o))
+				return n
+			}
+		}
+	}
 	more0 := ""
 	if s.more != nil {
 		more0 = s.more()
@@ -158,6 +173,7 @@ func genC20(r *Run) {
 			dhcpv4.OptDomainSearch(&rfc1035label.Labels{Labels: []string{"b.example", "a.example"}}),
 			dhcpv4.OptUserClass("abc"), dhcpv4.OptRFC3004UserClass([]string{"x", "yy"}),
 			dhcpv4.OptClasslessStaticRoute(&dhcpv4.Route{Dest: &net.IPNet{IP: net.IP{10, 0, 0, 0}, Mask: net.CIDRMask(8, 32)}, Router: net.IP{10, 0, 0, 1}}),
+			dhcpv4.OptClasslessStaticRoute(r.randRoutes()...),
 			dhcpv4.OptSubnetMask(net.IPMask(r.Bytes(4))), dhcpv4.OptHostName("h"), dhcpv4.OptGeneric(dhcpv4.GenericOptionCode(200), r.Bytes(5)),
 			dhcpv4.OptRelayAgentInfo(dhcpv4.OptGeneric(dhcpv4.GenericOptionCode(2), []byte{1, 2}), dhcpv4.OptGeneric(dhcpv4.GenericOptionCode(1), []byte{3})),
 			dhcpv4.OptMaxMessageSize(1500),
@@ -298,4 +314,21 @@ func genC20(r *Run) {
 		evals += exerciseC20(r, subject{"DUID", reflect.ValueOf(d), d.ToBytes, nil}, maxSeq)
 	}
 	r.Extra["oracle_evaluations"] = evals
+}
+
+// randRoutes: classless static routes with any prefix length, destination bits set beyond the mask, 4- and 16-octet addresses
+func (r *Run) randRoutes() []*dhcpv4.Route {
+	var out []*dhcpv4.Route
+	for k := 1 + r.Rng.Intn(3); k > 0; k-- {
+		ip := net.IP(r.Bytes(4))
+		if r.Rng.Intn(3) == 0 {
+			ip = ip.To16()
+		}
+		gw := net.IP(r.Bytes(4))
+		if r.Rng.Intn(4) == 0 {
+			gw = gw.To16()
+		}
+		out = append(out, &dhcpv4.Route{Dest: &net.IPNet{IP: ip, Mask: net.CIDRMask(r.Rng.Intn(33), 32)}, Router: gw})
+	}
+	return out
 }
